@@ -147,6 +147,12 @@ impl WriterCache {
     pub fn forget(&mut self, index: u16) {
         self.map.retain(|k, _| k.0 != index);
     }
+    /// Keeps a writer handed back by arroy itself (`prepare_changing_distance`) for the following operations.
+    pub fn put<D: Distance>(&mut self, index: u16, metric: Metric, dims: usize, w: Writer<D>) {
+        if self.long_lived {
+            self.map.insert((index, metric.idx(), dims), Box::new(w));
+        }
+    }
 }
 
 // ------------------------------------------------------------------------------------------------
@@ -1026,6 +1032,8 @@ pub struct Engine<'p> {
     pub prev_forest: BTreeMap<u16, RawIndex>,
     pub final_model: Option<Model>,
     pub writers: WriterCache,
+    /// temp directory configured on every Writer of this case (Writer::set_tmpdir), if any
+    pub tmpdir: Option<std::path::PathBuf>,
 }
 
 fn vio(step: usize, key: &str, msg: String) -> CaseEnd {
@@ -1040,7 +1048,7 @@ pub fn run_case(case: &Case, p: &Profile) -> CaseReport {
 /// Runs a case in a caller-provided environment and also returns the model of the committed state.
 pub fn run_case_in(world: &World, case: &Case, p: &Profile) -> (CaseReport, Model) {
     let long_lived = case.seed & 0x100 != 0;
-    let mut e = Engine { p, c: Counters::default(), sigs: Vec::new(), log: Vec::new(), prev_forest: BTreeMap::new(), final_model: None, writers: WriterCache::new(long_lived) };
+    let mut e = Engine { p, c: Counters::default(), sigs: Vec::new(), log: Vec::new(), prev_forest: BTreeMap::new(), final_model: None, writers: WriterCache::new(long_lived), tmpdir: None };
     e.c.inc(if long_lived { "cases_with_long_lived_writers" } else { "cases_with_fresh_writers" });
     let mut steps = 0usize;
     let end = match guarded(|| e.run(world, case, &mut steps)) {
@@ -1055,7 +1063,12 @@ impl Engine<'_> {
     fn run(&mut self, world: &World, case: &Case, steps: &mut usize) -> CaseEnd {
         let p = self.p;
         let ck = &p.checks;
-        let tmp_for_build = if case.tmpdir_set { Some(tempfile::tempdir_in(scratch_root()).unwrap()) } else { None };
+        let force_tmpdir = std::env::var("VERIF_FORCE_TMPDIR").is_ok();
+        let tmp_for_build = if case.tmpdir_set || force_tmpdir { Some(tempfile::tempdir_in(scratch_root()).unwrap()) } else { None };
+        self.tmpdir = tmp_for_build.as_ref().map(|t| t.path().to_path_buf());
+        if tmp_for_build.is_some() {
+            self.c.inc("cases_with_configured_tmpdir");
+        }
         let mut rng = StdRng::seed_from_u64(case.seed ^ 0x5151_5151);
         let mut model = case.model.clone();
         let mut committed_model = model.clone();
@@ -1267,9 +1280,26 @@ impl Engine<'_> {
                         if !(m.has_metadata && !m.dirty) {
                             return None;
                         }
+                        // with and without a candidate filter (none / empty / disjoint from the items / overlapping)
+                        let filt: Option<RoaringBitmap> = match rng.gen_range(0..4) {
+                            0 => None,
+                            1 => Some(RoaringBitmap::new()),
+                            2 => Some((0..8).map(|_| gen_id(rng, IdDist::Sparse)).filter(|i| !m.items.contains_key(i)).collect()),
+                            _ => Some(m.items.keys().copied().take(5).collect()),
+                        };
+                        self.c.inc(match &filt {
+                            None => "badlen_search_no_filter",
+                            Some(f) if f.is_empty() => "badlen_search_empty_filter",
+                            Some(f) if f.iter().any(|i| m.items.contains_key(&i)) => "badlen_search_overlapping_filter",
+                            Some(_) => "badlen_search_disjoint_filter",
+                        });
                         with_metric!(metric, D, guarded(|| {
                             let reader = Reader::<D>::open(wtxn, index, adb::<D>(db))?;
-                            reader.nns(3).by_vector(wtxn, &v).map(|_| ())
+                            let mut qb = reader.nns(3);
+                            if let Some(f) = &filt {
+                                qb.candidates(f);
+                            }
+                            qb.by_vector(wtxn, &v).map(|_| ())
                         }))
                     }
                 };
